@@ -12,7 +12,7 @@ LEVEL = 'exploration'
 RULE = (
     'cases: random walks of 1-6 atoms with mixed masses (Li, Na, S, O, Ag) over 6-200 frames in lattice-zoo cells; '
     'random ion charge 1-3, dimensions 1-3, temperature 50-1500 K, cell scale k and time scale s in (0.3, 4); one '
-    'third of the cases move all atoms identically (Haven ratio 1).  Oracle: defining formulas with CODATA 2018 '
+    'third of the cases move all atoms identically (Haven ratio 1); in half of the cases the same Trajectory object is then changed in place (temperature, time step, frames appended with extend) and asked again through Trajectory.metrics().  Oracle: defining formulas with CODATA 2018 '
     'constants on the harness ground truth + metamorphic scaling relations between two runs of the real code.  '
     'Non-trivial = at least two atoms of different mass in a non-cubic or rotated cell; distinct = SHA-1 of (walk, '
     'species, cell, parameters).'
@@ -185,6 +185,34 @@ def run_unit(unit, rng, ctx):
             cm2 = [QE**2 * z**2 * v * dens / (KB * temp) for v in mine2]
             ctx.check(close(c2.nominal_value, np.mean(cm2)) and abs(c2.std_dev - np.std(cm2)) <= 1e-9 * max(np.mean(cm2), 1e-300), f'{what}: TrajectoryMetricsStd.tracer_conductivity over unequal parts != plain mean/std', wit)
             ctx.count('std_variants_on_unequal_parts')
+    # ---- history on one Trajectory object: public entry point traj.metrics(), the trajectory is changed in
+    # place (temperature, time step, more frames appended) and asked again --------------------------------
+    if unit['i'] % 2 == 0:
+        Mt = traj.metrics()
+        ctx.check(close(Mt.tracer_diffusivity(dimensions=dim), D) and close(Mt.tracer_conductivity(z_ion=z, dimensions=dim), sigma), f'{what}: Trajectory.metrics() gives D={float(Mt.tracer_diffusivity(dimensions=dim))!r}, sigma={float(Mt.tracer_conductivity(z_ion=z, dimensions=dim))!r}; definitions give {D!r}, {sigma!r}', wit)
+        edit = str(rng.choice(['temperature', 'time_step', 'extend']))
+        U2, dt2, temp2 = U, dt, temp
+        if edit == 'temperature':
+            temp2 = float(temp * rng.uniform(1.5, 3.0))
+            traj.metadata['temperature'] = temp2
+        elif edit == 'time_step':
+            dt2 = float(dt * rng.uniform(1.5, 3.0))
+            traj.time_step = dt2
+        else:
+            T2 = int(rng.integers(3, 40))
+            U2 = np.concatenate([U, U[-1:] + np.cumsum(rng.uniform(-0.1, 0.1, size=(T2, N, 3)), axis=0)])
+            traj.extend(gen.make_trajectory(m, sp, (U2 - np.floor(U2))[T:], time_step=dt, metadata={'temperature': temp}))
+        Tn = len(U2)
+        cart2 = (U2 - U2[:1]) @ m
+        D2 = float(np.mean(np.sum(cart2[-1] ** 2, axis=1))) * ANG**2 / (2 * dim * Tn * dt2)
+        sigma2 = QE**2 * z**2 * D2 * dens / (KB * temp2)
+        M2 = traj.metrics()
+        if ctx.check(len(traj) == Tn, f'{what}: after {edit} the trajectory has {len(traj)} frames, expected {Tn}', wit):
+            ctx.check(close(M2.tracer_diffusivity(dimensions=dim), D2), f'{what}: after the trajectory was changed in place ({edit}) Trajectory.metrics().tracer_diffusivity is {float(M2.tracer_diffusivity(dimensions=dim))!r}; the definition on the current trajectory gives {D2!r}', wit)
+            ctx.check(close(M2.tracer_conductivity(z_ion=z, dimensions=dim), sigma2), f'{what}: after the trajectory was changed in place ({edit}) Trajectory.metrics().tracer_conductivity is {float(M2.tracer_conductivity(z_ion=z, dimensions=dim))!r}; the definition gives {sigma2!r}', wit)
+            final2 = np.linalg.norm(cart2[-1], axis=1)
+            ctx.check(close(np.asarray(M2.amplitudes()).sum(), final2.sum(), 1e-8), f'{what}: after {edit}: vibration amplitudes no longer sum to the final distances', wit)
+        ctx.count(f'requery_after_in_place_edit:{edit}')
     hetero = len(set(names)) > 1
     ctx.count(f'lattice:{kind}')
     ctx.count(f'z_ion:{z}')
